@@ -248,6 +248,19 @@ class Poly:
         den = ("denom", "", tuple(sorted((str(c), i) for c, i in lin)))
         return self * Poly([(Fraction(1), (den,))])
 
+    def __rtruediv__(self, o):
+        return Poly.lift(o) / self
+
+    def __pow__(self, n):
+        if isinstance(n, Fraction) and n.denominator == 1:
+            n = int(n)
+        if not isinstance(n, int) or isinstance(n, bool) or abs(n) > 8:
+            raise AnalysisError(f"A8: power {n!r} of a polynomial")
+        out = Poly.const(1)
+        for _ in range(abs(n)):
+            out = out * self
+        return out if n >= 0 else Poly.const(1) / out
+
     def rename(self, mp):
         def rf(f):
             if f[0] == "denom":
